@@ -641,7 +641,8 @@ class simplify_chained_calls(FuncADLNodeTransformer):
         "Do the lookup for the dict. Returns None if we can't find the key."
         if not all(isinstance(key, ast.Constant) for key in v.keys):
             return None
-        for index, value in enumerate(v.keys):
+        # A key written twice: the last one is the one the dictionary keeps
+        for index, value in reversed(list(enumerate(v.keys))):
             assert isinstance(value, ast.Constant)
             if value.value == s:
                 return copy.deepcopy(v.values[index])
